@@ -48,6 +48,8 @@ MC = {
 }
 REPLAY_SAMPLE = {"quick": 1200, "thorough": 15000}
 RANDOM_STEPS = {"quick": 4000, "thorough": 100000}
+ASYNC_REPLAY = {"quick": 400, "thorough": 5000}
+ASYNC_RANDOM = {"quick": 2500, "thorough": 30000}
 
 
 def write_cfg(ctx, name, consts, invariants, export=True):
@@ -162,7 +164,7 @@ def op_stats(events):
                     c["moved"] += 1
                 for row in e["all"]:
                     done[row[0]] = row[2]
-                if e["res"] == "ok" and "ret" in e and e["op"] not in ("commit",) and e["ret"] < e["n"]:
+                if e["res"] == "ok" and "ret" in e and e["op"] not in ("commit", "async_commit") and e["ret"] < e["n"]:
                     c["short"] += 1
             else:
                 if e["res"] == "ok" and e.get("ret", e.get("outlen", e["n"])) > 0:
@@ -170,8 +172,9 @@ def op_stats(events):
     return {k: dict(v) for k, v in sorted(st.items())}
 
 
-WRITER_ENTRY = ["write", "write_vectored", "write_obj", "write_all", "write_from", "write_from_at", "write_all_from", "split_at", "commit"]
-READER_ENTRY = ["read", "read_obj", "read_to", "read_to_at", "read_exact_to", "split_at"]
+WRITER_ENTRY = ["write", "write_vectored", "write_obj", "write_all", "write_from", "write_from_at", "write_all_from", "split_at", "commit",
+                "async_write", "async_write2", "async_write3", "async_write_all", "async_write_from_at", "async_commit"]
+READER_ENTRY = ["read", "read_obj", "read_to", "read_to_at", "read_exact_to", "split_at", "async_read_to_at"]
 FVS_ENTRY = ["fvs.write", "fvs.read", "fvs.write_slice", "fvs.read_slice", "fvs.store", "fvs.load", "fvs.offset", "fvs.view",
              "fvs.read_volatile_from", "fvs.read_exact_volatile_from", "fvs.write_volatile_to", "fvs.write_all_volatile_to",
              "fvs.borrow_as_buf", "buf.new", "buf.set_size", "buf.fill", "buf.peek"]
@@ -185,9 +188,9 @@ def coverage_gate(ctx, stats, events):
             c = stats.get("%s:%s" % (tr, op), {})
             if not c.get("calls"):
                 need.append("%s:%s never called" % (tr, op))
-            elif op not in ("split_at", "commit") and not c.get("moved"):
+            elif op not in ("split_at", "commit", "async_commit") and not c.get("moved"):
                 need.append("%s:%s never moved a byte" % (tr, op))
-            elif op.startswith("write") and not (c.get("err") or c.get("panic")):
+            elif (op.startswith("write") or op.startswith("async_write")) and not (c.get("err") or c.get("panic")):
                 # write_obj is write_all on the bytes of the object: one failing flavour is enough
                 twin = {"write_obj": "write_all", "write_all": "write_obj"}.get(op)
                 c2 = stats.get("%s:%s" % (tr, twin), {}) if twin else {}
@@ -271,7 +274,7 @@ def binding_demo(ctx, events, bad_segs=()):
         attempt("first delivered byte value + 1", on(lambda e: is_op(e) and e["op"] == "read" and e.get("ret", 0) > 1),
                 setf("out", lambda v: [[(v[0][0] + 1) % 251, v[0][1]]] + v[1:]), r"\|bytes$")
         attempt("memory diff of a write shifted by one address", on(lambda e: is_op(e) and e["op"].startswith("write") and e["diff"]),
-                setf("diff", lambda v: [[v[0][0] + 1, v[0][1], v[0][2]]] + v[1:]), r"\|placed$")
+                setf("diff", lambda v: [[v[0][0] + 1, v[0][1], v[0][2]]] + v[1:]), r"\|placed")
         attempt("available counter of a split child + 1", on(lambda e: is_op(e) and e["op"] == "split_at" and e["res"] == "ok"),
                 setf("all", lambda v: v[:-1] + [[v[-1][0], v[-1][1] + 1, v[-1][2]]]), r"\|counters$")
         attempt("a write that exceeds the space reported as Ok", on(lambda e: is_op(e) and e["op"] == "write" and e["res"] == "err"),
@@ -358,6 +361,8 @@ def run(ctx):
     pid, tier = ctx.pid, ctx.tier
     rnd = random.Random(ctx.seed)
     bindir = C.build_harness(bins=["transport"])
+    # second build with the cargo feature `async` (fuse-backend-rs/async-io): drives the async entry points
+    bindir_async = C.build_harness(bins=["transport"], features="async", target="target-async")
 
     if getattr(ctx, "replay", None):
         keep_evidence(ctx)
@@ -439,6 +444,21 @@ def run(ctx):
         steps -= n
         part += 1
 
+    # ---- 3b. the async-io entry points (async_write/2/3/_all, async_write_from_at, async_commit of both writers,
+    # Reader::async_read_to_at): part of the replay sample with the operations mapped to their async counterparts,
+    # and a random run mixing synchronous and async operations; same observations, same judge
+    asample = sample[:ASYNC_REPLAY[tier]]
+    asf = ctx.path("scenarios_async.ndjson")
+    C.write_ndjson(asf, asample)
+    art = ctx.path("replay_async.ndjson")
+    run_harness(ctx, bindir_async, ["replay-async", asf, art], art, {"VERIF_SEED": ctx.seed})
+    ev_areplay, _ = validate(ctx, art, "replay of TLC behaviours through the async entry points", scenarios=asample)
+    arf = ctx.path("random_async.ndjson")
+    run_harness(ctx, bindir_async, ["random-async", arf, ASYNC_RANDOM[tier]], arf, {"VERIF_SEED": ctx.seed * 1000 + 777})
+    ev_arandom, _ = validate(ctx, arf, "random driver (async entry points) seed %d" % (ctx.seed * 1000 + 777),
+                             rerun={"cmd": "random-async", "steps": ASYNC_RANDOM[tier], "seed": ctx.seed * 1000 + 777})
+    ev_replay = ev_replay + ev_areplay + ev_arandom
+
     # ---- 4. coverage and binding
     stats = op_stats(ev_replay + ev_random)
     for kx, vx in ctx.extra.pop("_more_stats", {}).items():
@@ -515,14 +535,20 @@ def run_replay_file(ctx, bindir):
         sf = ctx.path("scenarios.ndjson")
         C.write_ndjson(sf, [sc["model_scenario"]])
         rt = ctx.path("replay.ndjson")
-        run_harness(ctx, bindir, ["replay", sf, rt], rt, {"VERIF_SEED": ctx.seed})
-        validate(ctx, rt, "re-execution of " + sc.get("origin", "?"), scenarios=[sc["model_scenario"]])
+        if "async" in sc.get("what", ""):
+            bd = C.build_harness(bins=["transport"], features="async", target="target-async")
+            run_harness(ctx, bd, ["replay-async", sf, rt], rt, {"VERIF_SEED": ctx.seed})
+        else:
+            run_harness(ctx, bindir, ["replay", sf, rt], rt, {"VERIF_SEED": ctx.seed})
+        validate(ctx, rt, "re-execution of " + sc.get("origin", "?") + (" (async)" if "async" in sc.get("what", "") else ""),
+                 scenarios=[sc["model_scenario"]])
     elif sc.get("rerun") and sc.get("events"):
         # the random driver is deterministic in (seed, steps): run it again on the current tree and
         # judge the same scenario
         rr = sc["rerun"]
         full = ctx.path("random_full.ndjson")
-        run_harness(ctx, bindir, ["random", full, rr["steps"]], full, {"VERIF_SEED": rr["seed"]})
+        bd = C.build_harness(bins=["transport"], features="async", target="target-async") if rr.get("cmd") == "random-async" else bindir
+        run_harness(ctx, bd, [rr.get("cmd", "random"), full, rr["steps"]], full, {"VERIF_SEED": rr["seed"]})
         segid = sc["events"][0]["seg"]
         evs = [e for e in C.read_ndjson(full) if e.get("seg") == segid]
         if not evs:
